@@ -683,11 +683,14 @@ class SSHStreamSession(Generic[AnyStr]):
                     curbuf += 1
 
                 # Give up when no more data can arrive: at EOF, or when
-                # reading is paused because the receive buffer is full of
-                # data which doesn't contain a separator. If reading is
-                # paused on account of another stream's unread data and
-                # there's nothing buffered here, wait for it to be read.
-                if (self._read_paused and buflen) or self._eof_received:
+                # the receive buffer is full and holds data of this stream
+                # which doesn't contain a separator. If it's full of
+                # another stream's unread data alone, or reading is paused
+                # for another reason such as a redirect target which can't
+                # keep up, wait for more data.
+                if (buflen and self._limit and
+                        self._recv_buf_len >= self._limit) or \
+                        self._eof_received:
                     recv_buf[:curbuf] = []
                     self._recv_buf_len -= buflen
                     self._maybe_resume_reading()
